@@ -572,3 +572,93 @@ def type_item(src, kind, name, expect_variants=None):
         if body.rstrip(',') != re.sub(r'\s+', '', expect_variants).rstrip(','):
             raise Undecided('%s: %s %s changed shape: %s' % (src.rel, kind, name, body))
     return t + '\n'
+
+
+# ------------------------------------------------------------------ D-rules (iterator desugaring), DESIGN 3.2
+def _match_paren(t, mask, j, open_c='(', close_c=')'):
+    d = 0
+    k = j
+    while k < len(t):
+        if mask[k]:
+            if t[k] == open_c:
+                d += 1
+            elif t[k] == close_c:
+                d -= 1
+                if d == 0:
+                    return k
+        k += 1
+    raise Undecided('unbalanced %s' % open_c)
+
+
+def _find_let_chain(f, method):
+    """find `let NAME[: TY] = RECV .iter() .<method>(|P| {BLOCK}) .collect();` ; returns match info or None"""
+    t = f.text
+    mask = code_mask(t)
+    for m in re.finditer(r'\.' + method + r'\(\|(\w+)\|\s*\{', t):
+        if not mask[m.start()]:
+            continue
+        bo = m.end() - 1
+        bc = match_brace(t, mask, bo)
+        tail = re.match(r'\s*\)\s*\.collect\(\)\s*;', t[bc + 1:])
+        if not tail:
+            continue
+        lets = [x for x in re.finditer(r'let (\w+)(\s*:\s*[^=;]+?)?\s*=\s*', t[:m.start()])]
+        if not lets:
+            continue
+        L = lets[-1]
+        recv = t[L.end():m.start()]
+        if ';' in recv:
+            continue
+        r2 = re.sub(r'\s+', '', recv)
+        if not r2.endswith('.iter()'):
+            continue
+        return {'let_start': L.start(), 'name': L.group(1), 'recv': recv.strip(), 'param': m.group(1),
+                'block': t[bo:bc + 1], 'end': bc + 1 + tail.end()}
+    return None
+
+
+def d1_flat_map_collect(f, elem_ty):
+    """D1: let X = R.iter().flat_map(|p| BLOCK).collect();  ->  append loop (BLOCK verbatim)."""
+    n = 0
+    while True:
+        c = _find_let_chain(f, 'flat_map')
+        if c is None:
+            break
+        ind = re.search(r'[ \t]*$', f.text[:c['let_start']]).group(0)
+        new = ('let mut verif_acc: Vec<%s> = vec![];\n%sfor %s in %s {\n%s    let mut verif_part = %s;\n%s    verif_acc.append(&mut verif_part);\n%s}\n%slet %s = verif_acc;'
+               % (elem_ty, ind, c['param'], re.sub(r'\s+', '', c['recv']), ind, c['block'], ind, ind, ind, c['name']))
+        f.text = f.text[:c['let_start']] + new + f.text[c['end']:]
+        n += 1
+    if n == 0:
+        f._lost('D1 flat_map(..).collect() chain')
+    f.log.rule('D1', f, '%d flat_map/collect chain(s) -> append loop' % n)
+    return f
+
+
+def d2_map_collect(f, elem_ty):
+    """D2: let X[: Vec<_>] = R.iter().map(|p| BLOCK).collect();  ->  push loop (BLOCK verbatim)."""
+    n = 0
+    while True:
+        c = _find_let_chain(f, 'map')
+        if c is None:
+            break
+        ind = re.search(r'[ \t]*$', f.text[:c['let_start']]).group(0)
+        new = ('let mut %s: Vec<%s> = vec![];\n%sfor %s in %s {\n%s    %s.push(%s);\n%s}'
+               % (c['name'], elem_ty, ind, c['param'], re.sub(r'\s+', '', c['recv']), ind, c['name'], c['block'], ind))
+        f.text = f.text[:c['let_start']] + new + f.text[c['end']:]
+        n += 1
+    if n == 0:
+        f._lost('D2 map(..).collect() chain')
+    f.log.rule('D2', f, '%d map/collect chain(s) -> push loop' % n)
+    return f
+
+
+def pub_fields(item):
+    """visibility only: make every field of a struct pub (spec functions must be able to name them)."""
+    def fix_named(m):
+        body = m.group(2)
+        body = re.sub(r'(^|\n)(\s*)(?!pub\b)(\w+\s*:)', lambda k: k.group(1) + k.group(2) + 'pub ' + k.group(3), body)
+        return m.group(1) + body + m.group(3)
+    item = re.sub(r'(struct\s+\w+(?:<[^>]*>)?\s*\{)(.*?)(\n\})', fix_named, item, flags=re.S)
+    item = re.sub(r'(struct\s+\w+\s*\()(?!pub\b)', r'\1pub ', item)
+    return item
